@@ -42,6 +42,12 @@ func main() {
 		os.Exit(runCliReplay(os.Args[2:]))
 	case "traversal-replay":
 		os.Exit(runTraversalReplay(os.Args[2:]))
+	case "parser-limits":
+		os.Exit(runParserLimits(os.Args[2:]))
+	case "parser-fuzz":
+		os.Exit(runParserFuzz(os.Args[2:]))
+	case "parser-fuzz-child":
+		os.Exit(runParserFuzzChild(os.Args[2:]))
 	case "hashfuzz":
 		os.Exit(runHashFuzz(os.Args[2:]))
 	case "reader-replay":
